@@ -76,9 +76,14 @@ class C08(VariantCheck):
             name = "CompIntercepts_e%d" % eps
             cfg = os.path.join(work, name + ".cfg")
             with open(cfg, "w") as f:
-                f.write("CONSTANTS Eps = %d\n MaxSegs = 4\n MaxRank = %d\n Slack = %d\nSPECIFICATION Spec\nINVARIANTS BuilderOK ClampOK DecodedOK\nCHECK_DEADLOCK FALSE\n" % (eps, 8 + 4 * eps, eps))
+                f.write("CONSTANTS Eps = %d\n MaxSegs = 4\n MaxRank = %d\n Slack = %d\n MinGap = %d\nSPECIFICATION Spec\nINVARIANTS BuilderOK ClampOK DecodedOK NoUpwardShift\nCHECK_DEADLOCK FALSE\n" % (eps, 8 + 4 * eps, eps, 2 * eps + 1))
             ms.append(ModelRun("CompIntercepts.tla", cfg, name + " (clamped, Elias-Fano coded intercepts stay strictly increasing and within Eps)", workers=2, timeout=900,
                                constants={"Eps": eps, "MaxSegs": 4, "MaxRank": 8 + 4 * eps}))
+        cfg = os.path.join(work, "CompIntercepts_seam.cfg")
+        with open(cfg, "w") as f:
+            f.write("CONSTANTS Eps = 1\n MaxSegs = 3\n MaxRank = 8\n Slack = 1\n MinGap = 1\nSPECIFICATION Spec\nINVARIANTS NoUpwardShift\nCHECK_DEADLOCK FALSE\n")
+        ms.append(ModelRun("CompIntercepts.tla", cfg, "sensitivity: segments that start one rank apart (chunk seam) get an intercept moved up (F16)", workers=1, timeout=300,
+                           expect="violation:*", constants={"Eps": 1, "MinGap": 1}))
         for eps, er, route in ((1, 1, "linear"), (1, 1, "binary_window"), (1, 0, "binary_one_level")):
             name = "PGM_e%d_r%d_%s" % (eps, er, route)
             ms.append(ModelRun("PGMIndex.tla", props_static.pgm_cfg(work, name, 8, 6, eps, er, 8, route, 1, props_static.PGM_INV), name, workers=2, timeout=1500,
